@@ -173,3 +173,97 @@ func seq(n int) []int {
 	}
 	return out
 }
+
+// TestC14AskBufferAfterReturn: once Ask has returned the response buffer belongs to the caller again; a reply
+// that arrives at the very moment the asker's context ends must either be returned or be dropped - never
+// written into the buffer behind the caller's back.
+func TestC14AskBufferAfterReturn(t *testing.T) {
+	const sub = "C14.ask_buffer_after_return"
+	ev.Rule(sub, "rapid: a message-box swarm on a harness-owned transport asks a peer 100-400 times per case with context deadlines of 1-3 ms; the harness answers each request with a well-formed reply injected within +-300 us of that deadline (a few clearly early and clearly late ones mixed in). Oracle: if Ask returns nil the buffer holds the reply; whatever it returns, the buffer is byte-for-byte unchanged 2 ms after the return. non-trivial = case with replies on both sides of the deadline; distinct by parameters")
+	rapid.Check(t, func(t *rapid.T) {
+		inner := rapid.SampledFrom([]int{100, 300}).Draw(t, "innerMTU")
+		part := inner - mbapp.HeaderSize
+		r := newFragInst("mbapp", 1, inner, part*20, rapid.IntRange(1, 3).Draw(t, "workers"))
+		defer r.top.Close()
+		sAddr := stack.SAddr{N: 2}
+		trials := rapid.IntRange(100, 400).Draw(t, "trials")
+		deadlineUs := rapid.SampledFrom([]int{1000, 2000, 3000}).Draw(t, "deadlineMicros")
+		answerLen := rapid.SampledFrom([]int{8, part, part + 9}).Draw(t, "answerLen")
+		desc := fmt.Sprintf("innerMTU=%d trials=%d deadline=%dus answer=%dB", inner, trials, deadlineUs, answerLen)
+		okCount, errCount := 0, 0
+		for k := 0; k < trials; k++ {
+			offset := time.Duration((k*37)%600-300) * time.Microsecond // deterministic spread around the deadline
+			if k%10 == 0 {
+				offset = -time.Duration(deadlineUs/2) * time.Microsecond
+			}
+			if k%10 == 5 {
+				offset = 2 * time.Millisecond
+			}
+			answer := bytes.Repeat([]byte{byte('a' + k%26)}, answerLen)
+			type out struct {
+				n     int
+				err   error
+				buf   []byte
+				atRet []byte
+			}
+			done := make(chan out, 1)
+			start := time.Now()
+			deadline := start.Add(time.Duration(deadlineUs) * time.Microsecond)
+			go func() {
+				buf := make([]byte, part*20)
+				ctx, cf := context.WithDeadline(context.Background(), deadline)
+				defer cf()
+				n, err := r.ask.Ask(ctx, buf, sAddr, p2p.IOVec{[]byte("question")})
+				done <- out{n, err, buf, append([]byte{}, buf...)}
+			}()
+			var req []stack.Sent
+			for len(req) == 0 && time.Since(start) < 500*time.Millisecond {
+				req = append(req, r.script.Take()...)
+			}
+			if len(req) == 0 {
+				<-done
+				continue // the deadline was over before the request left
+			}
+			reqHdr := mbapp.Header(append([]byte{}, req[0].Data[:mbapp.HeaderSize]...))
+			var pkts [][]byte
+			nParts := (len(answer) + part - 1) / part
+			for i := 0; i < nParts; i++ {
+				h := mbapp.Header(append([]byte{}, reqHdr...))
+				h.SetIsAsk(true)
+				h.SetIsReply(true)
+				h.SetErrorCode(0)
+				h.SetPartIndex(uint16(i))
+				h.SetPartCount(uint16(nParts))
+				h.SetTotalSize(uint32(len(answer)))
+				lo, hi := i*part, min((i+1)*part, len(answer))
+				pkts = append(pkts, append([]byte(h), answer[lo:hi]...))
+			}
+			for time.Now().Before(deadline.Add(offset)) {
+			}
+			for _, p := range pkts {
+				r.script.Inject(sAddr, p, time.Second)
+			}
+			o := <-done
+			time.Sleep(2 * time.Millisecond)
+			if o.err == nil {
+				okCount++
+				if o.n != len(answer) || !bytes.Equal(o.buf[:o.n], answer) {
+					t.Fatalf("trial %d: Ask returned nil with %d bytes that are not the reply\ncase: %s", k, o.n, desc)
+				}
+			} else {
+				errCount++
+			}
+			if !bytes.Equal(o.buf, o.atRet) {
+				t.Fatalf("trial %d (reply %v relative to the deadline): the response buffer changed after Ask had returned (n=%d err=%v): the library wrote into memory the caller owns again\ncase: %s", k, offset, o.n, o.err, desc)
+			}
+			r.script.Take()
+		}
+		ev.EvalN(sub, int64(trials))
+		ev.Class(sub, fmt.Sprintf("answered>0=%v expired>0=%v", okCount > 0, errCount > 0))
+		if okCount > 0 && errCount > 0 {
+			if ev.NonTrivial(sub, desc) {
+				ev.Sample(sub, fmt.Sprintf("%s answered=%d expired=%d", desc, okCount, errCount))
+			}
+		}
+	})
+}
